@@ -69,7 +69,17 @@ impl HttpFixture {
     pub fn request(
         &self, method: &str, target: &str, body: Option<(&str, &[u8])>
     ) -> Result<(u16, Vec<u8>), String> {
-        request(self.addr, method, target, body)
+        // Transport problems (a loaded machine) are retried and reported with a
+        // `transport:` prefix so that they are never mistaken for an answer.
+        let mut last = String::new();
+        for attempt in 0..4 {
+            match request(self.addr, method, target, body) {
+                Ok(res) => return Ok(res),
+                Err(e) => last = e,
+            }
+            std::thread::sleep(Duration::from_millis(50 << attempt));
+        }
+        Err(format!("transport: {last}"))
     }
 }
 
